@@ -28,6 +28,21 @@ pub trait Explorable: Sync {
     fn report_panic(&self, _s: &Self::State, _a: Option<&Self::Action>, _location: &str, _message: &str) {}
 }
 
+/// resident set size of this process in GiB (0 when unknown)
+pub fn rss_gib() -> f64 {
+    std::fs::read_to_string("/proc/self/statm")
+        .ok()
+        .and_then(|s| s.split_whitespace().nth(1).and_then(|p| p.parse::<f64>().ok()))
+        .map(|pages| pages * 4096.0 / (1024.0 * 1024.0 * 1024.0))
+        .unwrap_or(0.0)
+}
+
+/// memory cap for an exploration (VERIF_RSS_CAP_GIB, default 20): reaching it stops the search, which then
+/// reports exhaustive:false with the depth it completed
+pub fn rss_cap_gib() -> f64 {
+    std::env::var("VERIF_RSS_CAP_GIB").ok().and_then(|s| s.parse().ok()).unwrap_or(20.0)
+}
+
 #[derive(Debug, Default, Clone)]
 pub struct BfsStats {
     pub states: u64,
@@ -93,8 +108,9 @@ pub fn explore<M: Explorable>(ctx: &Ctx, model: &M, max_ops: usize) -> BfsStats 
         }
         let next: Mutex<Vec<M::State>> = Mutex::new(Vec::new());
         let aborted = std::sync::atomic::AtomicBool::new(false);
+        let last_level = AtomicU64::new(0);
         crate::common::par_for_each(ctx.threads, &frontier, |i, s| {
-            if i % 64 == 0 && ctx.over_budget() {
+            if i % 64 == 0 && (ctx.over_budget() || rss_gib() > rss_cap_gib()) {
                 aborted.store(true, Ordering::Relaxed);
             }
             if aborted.load(Ordering::Relaxed) {
@@ -123,7 +139,14 @@ pub fn explore<M: Explorable>(ctx: &Ctx, model: &M, max_ops: usize) -> BfsStats 
                         }
                     });
                     match res {
-                        Ok(true) => local.push(child),
+                        // states of the last level are checked but not kept: nothing is expanded from them
+                        Ok(true) => {
+                            if depth + 1 < max_ops {
+                                local.push(child)
+                            } else {
+                                last_level.fetch_add(1, Ordering::Relaxed);
+                            }
+                        }
                         Ok(false) => {}
                         Err((loc, msg)) => model.report_panic(s, Some(&a), &loc, &msg),
                     }
@@ -134,16 +157,17 @@ pub fn explore<M: Explorable>(ctx: &Ctx, model: &M, max_ops: usize) -> BfsStats 
             }
         });
         if aborted.load(Ordering::Relaxed) {
-            ctx.set_capped(format!("wall budget {}s reached while expanding depth {}", ctx.budget_s(), depth));
+            ctx.set_capped(format!("wall budget {}s or memory cap {} GiB reached while expanding depth {} (rss {:.1} GiB)", ctx.budget_s(), rss_cap_gib(), depth, rss_gib()));
             stats.exhaustive_within_bound = false;
             stats.transitions = transitions.load(Ordering::Relaxed);
             stats.states = seen.len() as u64;
             return stats;
         }
         frontier = next.into_inner().unwrap();
-        stats.states_per_depth.push(frontier.len() as u64);
+        let level_states = frontier.len() as u64 + last_level.load(Ordering::Relaxed);
+        stats.states_per_depth.push(level_states);
         stats.completed_depth = depth + 1;
-        if !frontier.is_empty() {
+        if level_states > 0 {
             stats.max_depth = depth + 1;
         }
     }
